@@ -646,17 +646,17 @@ func ruleAnnotatePreserves(c *Ctx) {
 
 // ruleDecoderStateless: what a record decodes to depends on the record only:
 // the decoders keep no memo or other package-level state between calls.
-func ruleDecoderStateless(c *Ctx) {
-	roots := decoderRoots(c.P, map[string]bool{"cache": true})
+func ruleDecoderStateless(c *Ctx, pkgs map[string]bool) {
+	roots := decoderRoots(c.P, pkgs)
 	if len(roots) == 0 {
-		c.undecided("decoder-stateless", "cache", "-", "decoders not found")
+		c.undecided("decoder-stateless", pkgsName(pkgs), "-", "decoders not found")
 		return
 	}
 	n := 0
 	bad := []string{}
 	seen := map[*ssa.Function]bool{}
 	for _, r := range roots {
-		for f := range staticScope(r, "cache", 4) {
+		for f := range staticScope(r, pkgOfFunc(r), 4) {
 			if seen[f] {
 				continue
 			}
@@ -686,7 +686,7 @@ func ruleDecoderStateless(c *Ctx) {
 			}
 		}
 	}
-	c.check(len(bad) == 0, "decoder-stateless", "cache", "-", fmt.Sprintf("%d decoder functions use no mutable package-level state (%d references to sentinels / constant tables)", len(seen), n), strings.Join(uniq(bad), " || "), len(seen))
+	c.check(len(bad) == 0, "decoder-stateless", pkgsName(pkgs), "-", fmt.Sprintf("%d decoder functions use no mutable package-level state (%d references to sentinels / constant tables)", len(seen), n), strings.Join(uniq(bad), " || "), len(seen))
 }
 
 func derefType(t types.Type) types.Type {
@@ -717,4 +717,23 @@ func parentOf(v ssa.Value) *ssa.Function {
 		return in.Parent()
 	}
 	return v.Parent()
+}
+
+func pkgOfFunc(f *ssa.Function) string {
+	if f.Pkg == nil {
+		return ""
+	}
+	p := f.Pkg.Pkg.Path()
+	if i := strings.LastIndex(p, "/"); i >= 0 {
+		return p[i+1:]
+	}
+	return p
+}
+
+func pkgsName(pkgs map[string]bool) string {
+	names := []string{}
+	for k := range pkgs {
+		names = append(names, k)
+	}
+	return strings.Join(sortedStrings(names), "+")
 }
